@@ -3,9 +3,10 @@ import os
 import time
 
 import core
-from translate import formulas
+from translate import formulas, control
 
 GEN_OUT = os.path.join(core.LEAN, "PyribsGen", "Formulas.lean")
+GEN_CTL = os.path.join(core.LEAN, "PyribsGen", "Control.lean")
 
 
 def translate(ctx):
@@ -17,6 +18,7 @@ def translate(ctx):
     t0 = time.time()
     try:
         recs, changed = formulas.translate(core.REPO, GEN_OUT)
+        crecs, cchanged = control.translate(core.REPO, GEN_CTL)
     except OSError as e:
         raise core.Infra(f"formula translator could not write {GEN_OUT}: {e}") from e
     ctx.extra["formulas"] = {
@@ -26,4 +28,11 @@ def translate(ctx):
         "translated": [{k: r[k] for k in ("name", "file", "func", "line", "python", "lean")} for r in recs if r["ok"]],
         "untranslatable": [{k: r[k] for k in ("name", "file", "func", "why")} for r in recs if not r["ok"]],
         "seconds": round(time.time() - t0, 3),
+    }
+    ctx.extra["control_flow"] = {
+        "source_tree": core.REPO,
+        "generated_file": "lean/PyribsGen/Control.lean",
+        "generated_file_rewritten": cchanged,
+        "translated": [{k: r[k] for k in ("name", "file", "func", "line", "python", "lean")} for r in crecs if r["ok"]],
+        "untranslatable": [{k: r[k] for k in ("name", "file", "func", "why")} for r in crecs if not r["ok"]],
     }
